@@ -82,8 +82,14 @@ Pop == SubSeq(stack, 1, Len(stack) - 1)
 Push(f) == Append(stack, f)
 ReplTop(f) == [stack EXCEPT ![Len(stack)] = f]
 
-InLookahead == \E i \in 1..Len(stack) : stack[i].k \in {"neg", "pos"}
-Attempt(p, kind) == [p |-> p, k |-> kind, la |-> InLookahead]
+\* Failed attempts are labelled with the number of lookahead bodies they are made in (0: they count).
+\* When a lookahead is over its attempts are relabelled: a positive lookahead that fails hands its
+\* inner failures to the enclosing level (they made the parse fail there); in every other case they
+\* are dropped (Dropped), as the generated code drops the inner error.
+LaDepth == Cardinality({i \in 1..Len(stack) : stack[i].k \in {"neg", "pos"}})
+Dropped == 99
+Attempt(p, kind) == [p |-> p, k |-> kind, la |-> LaDepth]
+Relabel(S, from, to) == {IF a.la = from THEN [a EXCEPT !.la = to] ELSE a : a \in S}
 
 EvInc(r, p) == IF <<r, p>> \in DOMAIN evals THEN [evals EXCEPT ![<<r, p>>] = @ + 1]
                ELSE (<<r, p>> :> 1) @@ evals
@@ -394,14 +400,14 @@ NegOk ==       \* the body failed: succeed, consume nothing, inner errors droppe
   /\ ctl.m = "ret" /\ ~ctl.ok /\ stack # <<>> /\ Top.k = "neg"
   /\ stack' = Pop
   /\ ctl' = RetOk(Top.st, <<>>)
-  /\ UNCHANGED <<gi, txt, cache, depth, evals, att, hist>>
+  /\ att' = Relabel(att, LaDepth, Dropped)
+  /\ UNCHANGED <<gi, txt, cache, depth, evals, hist>>
 
 NegFail ==     \* the body matched
   /\ ctl.m = "ret" /\ ctl.ok /\ stack # <<>> /\ Top.k = "neg"
   /\ stack' = Pop
   /\ ctl' = RetErr(Rep(Top.st, KNeg))
-  /\ att' = Att({[p |-> Top.st.p, k |-> KNeg,
-                        la |-> \E i \in 1..(Len(stack) - 1) : stack[i].k \in {"neg", "pos"}]})
+  /\ att' = Att({[p |-> Top.st.p, k |-> KNeg, la |-> LaDepth - 1]}) \cup Relabel(att, LaDepth, Dropped)
   /\ UNCHANGED <<gi, txt, cache, depth, evals, hist>>
 
 PosEnter ==
@@ -414,12 +420,14 @@ PosOk ==       \* succeed, consume nothing, inner errors dropped
   /\ ctl.m = "ret" /\ ctl.ok /\ stack # <<>> /\ Top.k = "pos"
   /\ stack' = Pop
   /\ ctl' = RetOk(Top.st, <<>>)
-  /\ UNCHANGED <<gi, txt, cache, depth, evals, att, hist>>
+  /\ att' = Relabel(att, LaDepth, Dropped)
+  /\ UNCHANGED <<gi, txt, cache, depth, evals, hist>>
 
-PosFail ==     \* the inner error is the error
+PosFail ==     \* the inner error is the error: the inner failures count at the enclosing level
   /\ ctl.m = "ret" /\ ~ctl.ok /\ stack # <<>> /\ Top.k = "pos"
   /\ stack' = Pop /\ ctl' = ctl
-  /\ UNCHANGED <<gi, txt, cache, depth, evals, att, hist>>
+  /\ att' = Relabel(att, LaDepth, LaDepth - 1)
+  /\ UNCHANGED <<gi, txt, cache, depth, evals, hist>>
 
 \* >Rule: the definition of the rule, under the includer's settings
 IncEnter ==
@@ -614,7 +622,7 @@ CountSound ==
 
 \* C10
 Failed == Done /\ ~ctl.ok
-AttMust == {a.p : a \in {x \in att : ~x.la}}
+AttMust == {a.p : a \in {x \in att : x.la = 0}}
 AttAll  == {a.p : a \in att}
 MaxOf(S) == CHOOSE x \in S : \A y \in S : y <= x
 NoMemoNoLr == \A ri \in 1..NumRules(G) : G.rules[ri].kind = "rule" => ~G.rules[ri].memoize /\ ~G.rules[ri].leftrec
@@ -625,9 +633,9 @@ RealFailure == Failed => /\ ctl.err.p \in AttAll
                          /\ G.lrfirst => \E a \in att : a.p = ctl.err.p /\ a.k = ctl.err.k
                          /\ ctl.err.k.k # "Other"
 NoSentinel == Failed /\ G.lrfirst => ctl.err.k.k # "Sentinel"
-FurthestFail == Failed /\ NoMemoNoLr =>
-                  /\ AttMust # {} => MaxOf(AttMust) <= ctl.err.p
-                  /\ ctl.err.p <= MaxOf(AttAll)
+\* without memoized / left-recursive rules the reported position is exactly the furthest attempt
+\* that counts (made outside lookaheads, or handed out by a positive lookahead that failed)
+FurthestFail == Failed /\ NoMemoNoLr /\ ~G.lean => AttMust # {} /\ ctl.err.p = MaxOf(AttMust)
 
 \* C19: entries and exits nest, the depth never underflows
 Balanced == depth >= 0 /\ (Done => depth = 0) /\ depth = Cardinality(RuleFrames)
